@@ -1,6 +1,11 @@
 """Contracts for workflows.retry_policy (C05 policy side, C06, C07)."""
 from pyvc.dsl import *  # noqa
 
+try:  # native side only
+    from datetime import timedelta  # noqa
+except ImportError:  # pragma: no cover
+    pass
+
 MODULE = "workflows.retry_policy"
 
 PLAIN_CLASSES = {
@@ -28,6 +33,7 @@ OPAQUE_METHODS = {
     ("StopCondition", "__call__"): dict(ret="bool", pure=True),
     ("RetryCondition", "__call__"): dict(ret="bool", pure=True),
     ("Rng", "uniform"): dict(ret="float", pure=True, post="uniform_post"),
+    ("timedelta", "total_seconds"): dict(ret="float", pure=True),
 }
 
 MODULE_FNS = {
@@ -262,3 +268,26 @@ class PolicyNext:
         delay = self.wait(attempts, seed=seed)
         stopped = self.stop(attempts, elapsed_time, upcoming_sleep=delay)
         return (result is None) == (rejected or stopped) and ((result is None) or result == delay)
+
+
+# ------------------------------------------------------------------ C05: time units
+OPAQUE_ATTRS = {
+    ("timedelta", "seconds"): "float",
+    ("timedelta", "days"): "float",
+    ("timedelta", "microseconds"): "float",
+}
+
+
+@contract("workflows.retry_policy._to_seconds")
+class ToSeconds:
+    properties = ["C05"]
+    param_types = {"value": "timedelta"}
+    raises = []
+    notes = "checked for timedelta arguments; int / float arguments go through float(), which is the identity here"
+
+    def requires(value):
+        return True
+
+    def ensures_total_seconds(old, value, result):
+        # a delay limit given as a timedelta means its total length (days and microseconds included)
+        return (not isinstance(value, timedelta)) or result == value.total_seconds()
